@@ -240,6 +240,8 @@ func run(c *rig.Ctx) {
 			delete(romLog, r.Rel)
 		}})
 
+	pairs(c)
+
 	// (5) wiring through gameboy.New
 	c.Part("wiring", c.N(24, 180), func(i int64, r *rig.Rng) {
 		p := prog.Generate(r, prog.Options{Serial: true, CartType: 0})
